@@ -96,6 +96,20 @@ OsmDocs ==
         OsmDocOf(NoHdr, <<Mini("Node", 1), Mini("Way", 2), Mini("Node", 3), Mini("Relation", 4), Mini("Way", 5), Mini("Node", 6),
                           Small("Changeset", 7), Small("Note", 8), Small("User", 9), Small("Changeset", 1), Mini("Relation", 2)>>)}
 
+\* consecutive objects of one kind whose lists have 1, 2, 4, 8 items (the sizes at which an append-grown slice is exactly
+\* full) followed by another object of that kind with different items: nothing decoded later may show up in an earlier object
+IdSym(k) == "i" \o ToString(1 + (k % 9))
+StrSym(k) == "s" \o ToString(1 + (k % 6))
+NdWay(k, n) == Obj("Way", [ID |-> IdSym(k), Nodes |-> [j \in 1 .. n |-> [ID |-> IdSym(k + 2 * j)]]])
+MemRel(k, n) == Obj("Relation", [ID |-> IdSym(k), Members |-> [j \in 1 .. n |-> [Type |-> "=node", Ref |-> IdSym(k + 2 * j), Role |-> StrSym(k + j)]]])
+TagNode(k, n) == Obj("Node", [ID |-> IdSym(k), Tags |-> [j \in 1 .. n |-> [Key |-> StrSym(k + j), Value |-> StrSym(k + j + 1)]]])
+ListPairDocs ==
+  {OsmDocOf(NoHdr, <<NdWay(1, n), NdWay(4, m)>>) : n \in {1, 2, 4}, m \in {1, 3}}
+  \cup {OsmDocOf(NoHdr, <<MemRel(1, n), MemRel(4, m)>>) : n \in {1, 2, 4}, m \in {1, 3}}
+  \cup {OsmDocOf(NoHdr, <<TagNode(1, n), TagNode(3, m)>>) : n \in {1, 2, 4}, m \in {1, 3}}
+  \cup {OsmDocOf(NoHdr, <<NdWay(1, 1), NdWay(2, 2), NdWay(3, 4), NdWay(4, 8), NdWay(5, 3), MemRel(1, 1), MemRel(2, 2), MemRel(3, 4), MemRel(6, 2)>>),
+        ChangeDocOf(NoHdr, <<Block("Create", <<NdWay(1, 2)>>), Block("Modify", <<NdWay(5, 2), NdWay(7, 1)>>)>>)}
+
 Acts3 == {"Create", "Modify", "Delete"}
 ActSeqs(n) == UNION {[1 .. m -> Acts3] : m \in 0 .. n}
 \* block i of a sequence holds a node and (every second block) a way, ids by position so that order is observable
@@ -127,7 +141,7 @@ DiffDocs ==
   \cup {DiffDocOf(<<Act("=modify", << >>, << <<Mini("Node", 1), Mini("Way", 2), Mini("Node", 3)>> >>, << <<Mini("Way", 4), Mini("Relation", 5)>> >>),
                     Act("=delete", << >>, << <<Full("Relation", 6)>> >>, << >>)>>, <<Small("Changeset", 7), Full("Changeset", 8)>>)}
 
-Docs == OsmDocs \cup ChangeDocs \cup DiffDocs
+Docs == OsmDocs \cup ChangeDocs \cup DiffDocs \cup ListPairDocs
 DocCase(d) == [doc |-> d, tree |-> DocTree(d), unk |-> <<UnknownAttr, UnknownElem>>]
 
 (* ---- Go-shaped values (C04 / C05) ---- *)
@@ -173,7 +187,24 @@ JsonDocCases ==
   \cup {JDoc(Vers[i], NoHdr, << >>) : i \in 1 .. 5}
   \cup {JDoc(Vers[1 + (i % 5)], Hdr({"Generator"}), [k \in 1 .. 6 |-> Full(JsonKinds[1 + ((k + i) % 6)], k + i)]) : i \in 1 .. 6}
   \cup {JDoc(Vers[2], NoHdr, <<Mini("Node", 1), Mini("Way", 2), Mini("Node", 3), Mini("Relation", 4), Mini("Way", 5), Mini("Node", 6)>>)}
-JsonCases == RtCases \cup JsonDocCases
+\* Strings only JSON can carry (symbols s7..s11 of the harness: ASCII control characters other than \b \f \n \r \t, DEL,
+\* an unprintable code point above U+FFFF).  C05 only - the XML value spaces stay XML-representable.  They appear as tag
+\* key, as tag value and in one other string field of each kind, standalone, inside an OSM, and in independent documents.
+JsonOnly == <<"s7", "s8", "s9", "s10", "s11">>
+CtlTags(i) == << [Key |-> JsonOnly[i], Value |-> "s1"], [Key |-> "s2", Value |-> JsonOnly[1 + (i % 5)]] >>
+CtlObjs ==
+  UNION {{ Obj("Node", [Full("Node", i).f EXCEPT !.Tags = CtlTags(i), !.User = JsonOnly[1 + ((i + 1) % 5)]]),
+           Obj("Way", [Full("Way", i).f EXCEPT !.Tags = CtlTags(i)]),
+           Obj("Relation", [Full("Relation", i).f EXCEPT !.Tags = CtlTags(i), !.Members = << [@[1] EXCEPT !.Role = JsonOnly[i]] >>]),
+           Obj("Changeset", [Full("Changeset", i).f EXCEPT !.Tags = CtlTags(i),
+                               !.Discussion = << [Comments |-> << [@[1].Comments[1] EXCEPT !.Text = JsonOnly[i]] >>] >>]),
+           Obj("Note", [Full("Note", i).f EXCEPT !.Comments = << [@[1] EXCEPT !.Text = JsonOnly[i], !.User = JsonOnly[1 + (i % 5)]] >>]),
+           Obj("User", [Full("User", i).f EXCEPT !.Name = JsonOnly[i], !.Languages = <<JsonOnly[1 + (i % 5)]>>]) } : i \in 1 .. 5}
+JsonCtlCases ==
+  {[kind |-> "rt", root |-> o.T, v |-> o.f] : o \in CtlObjs}
+  \cup {[kind |-> "rt", root |-> "OSM", v |-> WholeOSM(Hdr({"Generator"}), <<o>>)] : o \in CtlObjs}
+  \cup {JDoc(Vers[3], NoHdr, <<o>>) : o \in CtlObjs}
+JsonCases == RtCases \cup JsonDocCases \cup JsonCtlCases
 
 VARIABLE case
 DInit == case \in {DocCase(d) : d \in Docs}
